@@ -1049,6 +1049,12 @@ func disambiguate(name string, collides func(string) bool) string {
 // importableFrom reports whether Go's rule for internal packages lets the
 // package at import path from import the package at import path path.
 func importableFrom(path, from string) bool {
+	if from == "command-line-arguments" {
+		// A package named by a list of files: its synthetic path says
+		// nothing about where it lives, so the rule cannot be decided here
+		// (the compiler will).
+		return true
+	}
 	path, from = unvendor(path), unvendor(from)
 	var i int
 	switch {
